@@ -9,7 +9,7 @@ use num_traits::One;
 use serde_json::json;
 use vcore::{big, catch, CaseOut};
 
-use crate::generic::{v, AffOps, Alpha, Tasks};
+use crate::generic::{v, AffOps, Alpha, Bind, Tasks};
 use crate::model::{MCurve, Shape, FE, MP};
 
 pub trait BaseConv: AffOps {
@@ -28,11 +28,11 @@ fn jac_to_m(cv: &MCurve, x: &FE, y: &FE, z: &FE) -> MP {
     MP::At(f.mul(x, &zi2), f.mul(y, &f.mul(&zi2, &zi)))
 }
 
-pub fn ext_tasks<B>(t: &mut Tasks, al: &Arc<Alpha<B>>)
+pub fn ext_tasks<B, C>(t: &mut Tasks, al: &Arc<Alpha<B>>)
 where
-    B: BaseConv,
-    B::G: CurveExt<Base = B::Base, AffineExt = B::A> + Curve<AffineRepr = B::A>,
-    B::A: CurveAffine<Base = B::Base, CurveExt = B::G>,
+    C: CurveExt + subtle::ConditionallySelectable,
+    C::AffineExt: CurveAffine<Base = C::Base>,
+    B: BaseConv<Base = C::Base> + Bind<G = C> + AffOps<A = C::AffineExt>,
 {
     let ty = B::NAME;
     let a = al.clone();
@@ -46,11 +46,11 @@ where
         };
         // ---- constants
         out.eval("constants", true);
-        match catch(|| (B::fe(&<B::G as CurveExt>::a()), B::fe(&<B::G as CurveExt>::b()), B::fe(&<B::A as CurveAffine>::a()), B::fe(&<B::A as CurveAffine>::b()))) {
+        match catch(|| (B::fe(&<C as CurveExt>::a()), B::fe(&<C as CurveExt>::b()), B::fe(&<C::AffineExt as CurveAffine>::a()), B::fe(&<C::AffineExt as CurveAffine>::b()))) {
             Err(e) => v(&mut out, ty, "curve-constants", "panic", format!("panicked: {e}"), json!({})),
             Ok((a1, b1, a2, b2)) => {
                 if a1 != ma || a2 != ma || b1 != mb || b2 != mb {
-                    v(&mut out, ty, "curve-constants", "wrong-result", "a()/b() differ from the curve equation of the standard".into(), json!({"a": [a1, a2].iter().map(|x| x.iter().map(big::hexs).collect::<Vec<_>>()).collect::<Vec<_>>(), "b": [b1, b2].iter().map(|x| x.iter().map(big::hexs).collect::<Vec<_>>()).collect::<Vec<_>>()}));
+                    v(&mut out, ty, "curve-constants", "wrong-result", "a()/b() differ from the curve equation of the standard".into(), json!({"a": format!("{a1:?} / {a2:?}"), "b": format!("{b1:?} / {b2:?}")}));
                 }
             }
         }
@@ -61,7 +61,7 @@ where
             }
             z
         }];
-        let zeta = <<B::G as CurveExt>::ScalarExt as WithSmallOrderMulGroup<3>>::ZETA;
+        let zeta = <<C as CurveExt>::ScalarExt as WithSmallOrderMulGroup<3>>::ZETA;
         for (i, pa) in a.pts.iter().enumerate() {
             let p = pa.g;
             let is_id = cv.is_id(&pa.m);
@@ -71,7 +71,7 @@ where
             out.eval("coordinates", nontrivial);
             match catch(|| {
                 let pa_aff = p.to_affine();
-                Option::<midnight_curves::Coordinates<B::A>>::from(pa_aff.coordinates()).map(|c| (B::fe(c.x()), B::fe(c.y())))
+                Option::<midnight_curves::Coordinates<C::AffineExt>>::from(pa_aff.coordinates()).map(|c| (B::fe(c.x()), B::fe(c.y())))
             }) {
                 Err(e) => v(&mut out, ty, "coordinates", "panic", format!("panicked: {e}"), ctx()),
                 Ok(None) if !is_id => v(&mut out, ty, "coordinates", "none-for-point", "coordinates() is None for a non-identity point".into(), ctx()),
@@ -94,8 +94,8 @@ where
                 // ---- from_xy
                 out.eval("from_xy", true);
                 match catch(|| {
-                    let ok = Option::<B::A>::from(B::A::from_xy(B::base(x), B::base(y))).map(|q| B::a_to_m(&q));
-                    let bad = Option::<B::A>::from(B::A::from_xy(B::base(x), B::base(&f.add(y, &f.one())))).is_some();
+                    let ok = Option::<C::AffineExt>::from(<C::AffineExt as CurveAffine>::from_xy(B::base(x), B::base(y))).map(|q| B::a_to_m(&q));
+                    let bad = Option::<C::AffineExt>::from(<C::AffineExt as CurveAffine>::from_xy(B::base(x), B::base(&f.add(y, &f.one())))).is_some();
                     (ok, bad)
                 }) {
                     Err(e) => v(&mut out, ty, "from_xy", "panic", format!("panicked: {e}"), ctx()),
@@ -136,7 +136,7 @@ where
             out.eval("new_jacobian:roundtrip", nontrivial);
             match catch(|| {
                 let (x, y, z) = p.jacobian_coordinates();
-                Option::<B::G>::from(B::G::new_jacobian(x, y, z)).map(|q| B::to_m(&q))
+                Option::<C>::from(C::new_jacobian(x, y, z)).map(|q| B::to_m(&q))
             }) {
                 Err(e) => v(&mut out, ty, "new_jacobian", "panic", format!("panicked: {e}"), ctx()),
                 Ok(m) if m.as_ref() != Some(&pa.m) => v(&mut out, ty, "new_jacobian", "roundtrip", "new_jacobian(jacobian_coordinates(P)) != P".into(), ctx()),
@@ -147,7 +147,7 @@ where
                     let z2 = f.sqr(z);
                     let (jx, jy) = (f.mul(x, &z2), f.mul(y, &f.mul(&z2, z)));
                     out.eval(if *z == f.one() { "new_jacobian:Z=1" } else { "new_jacobian:Z!=1" }, true);
-                    match catch(|| Option::<B::G>::from(B::G::new_jacobian(B::base(&jx), B::base(&jy), B::base(z))).map(|q| B::to_m(&q))) {
+                    match catch(|| Option::<C>::from(C::new_jacobian(B::base(&jx), B::base(&jy), B::base(z))).map(|q| B::to_m(&q))) {
                         Err(e) => v(&mut out, ty, "new_jacobian", "panic", format!("panicked: {e}"), ctx()),
                         Ok(m) if m.as_ref() != Some(&pa.m) => v(
                             &mut out,
@@ -161,7 +161,7 @@ where
                     }
                 }
                 out.eval("new_jacobian:off-curve", true);
-                match catch(|| Option::<B::G>::from(B::G::new_jacobian(B::base(x), B::base(&f.add(y, &f.one())), B::base(&f.one()))).is_some()) {
+                match catch(|| Option::<C>::from(C::new_jacobian(B::base(x), B::base(&f.add(y, &f.one())), B::base(&f.one()))).is_some()) {
                     Err(e) => v(&mut out, ty, "new_jacobian", "panic", format!("panicked: {e}"), ctx()),
                     Ok(true) => v(&mut out, ty, "new_jacobian", "accepts-off-curve", "new_jacobian(x, y+1, 1) is accepted".into(), ctx()),
                     _ => {}
@@ -204,14 +204,14 @@ where
         }
         // ---- (0,0) is not on y^2 = x^3 + b (b != 0): from_xy promises failure off the curve
         out.eval("from_xy:(0,0)", true);
-        match catch(|| Option::<B::A>::from(B::A::from_xy(B::Base::ZERO, B::Base::ZERO)).map(|q| B::a_to_m(&q))) {
+        match catch(|| Option::<C::AffineExt>::from(<C::AffineExt as CurveAffine>::from_xy(B::Base::ZERO, B::Base::ZERO)).map(|q| B::a_to_m(&q))) {
             Err(e) => v(&mut out, ty, "from_xy", "panic", format!("panicked on (0,0): {e}"), json!({})),
             Ok(Some(m)) => v(&mut out, ty, "from_xy", "accepts-(0,0)", "from_xy(0, 0) succeeds although (0,0) does not satisfy the curve equation (it is the in-memory identity)".into(), json!({"got": m.json()})),
             Ok(None) => {}
         }
         // ---- new_jacobian at infinity: (1, 1, 0) is the Jacobian point at infinity
         out.eval("new_jacobian:infinity", false);
-        match catch(|| Option::<B::G>::from(B::G::new_jacobian(B::Base::ONE, B::Base::ONE, B::Base::ZERO)).map(|q| B::to_m(&q))) {
+        match catch(|| Option::<C>::from(C::new_jacobian(B::Base::ONE, B::Base::ONE, B::Base::ZERO)).map(|q| B::to_m(&q))) {
             Err(e) => v(&mut out, ty, "new_jacobian", "panic", format!("panicked on (1,1,0): {e}"), json!({})),
             Ok(m) if m != Some(MP::Inf) => v(&mut out, ty, "new_jacobian", "infinity", "new_jacobian(1, 1, 0) is not the identity".into(), json!({"got": m.map(|m| m.json())})),
             _ => {}
